@@ -41,7 +41,7 @@ def Shape : Msg → Prop
   | .connack h _ _ => h.type = 2 ∧ h.flags = 0
   | .publish h _ _ => h.type = 3
   | .ack h => (h.type = 4 ∨ h.type = 5 ∨ h.type = 6 ∨ h.type = 7 ∨ h.type = 11) ∧ h.flags = defaultFlagsOf h.type
-  | .subscribe h _ _ => h.type = 8 ∧ h.flags = 2
+  | .subscribe h ts qs => h.type = 8 ∧ h.flags = 2 ∧ ts.length = qs.length
   | .suback h _ => h.type = 9 ∧ h.flags = 0
   | .unsubscribe h _ => h.type = 10 ∧ h.flags = 2
   | .bare h => (h.type = 12 ∨ h.type = 13 ∨ h.type = 14) ∧ h.flags = 0 ∧ h.remlen = 0
@@ -53,7 +53,8 @@ def WillOk : Msg → Prop
 
 theorem canon_of_shape (m : Msg) (hs : Shape m) (hw : WillOk m) : Canon m := by
   cases m <;> simp only [Shape, WillOk, Canon] at * <;> try exact hs
-  exact ⟨hs.2.1, hs.2.2.1, hw, hs.2.2.2⟩
+  · exact ⟨hs.2.1, hs.2.2.1, hw, hs.2.2.2⟩
+  · exact ⟨hs.1, hs.2.1⟩
 
 /-- messages built through the public API: `Type.New()` followed by setter calls -/
 inductive Built : Msg → Prop where
@@ -164,14 +165,26 @@ theorem freshInv_set (m : Msg) (s : Setter) (hi : FreshInv m) : FreshInv (applyS
          exact hs)
   | subscribe h ts qs =>
     simp only [Msg.hdr] at hd
+    obtain ⟨s1, s2, s3⟩ := hs
+    have hrm : ∀ i, (removeAt ts i).length = (removeAt qs i).length := by
+      intro i; unfold removeAt
+      simp only [List.length_append, List.length_take, List.length_drop]; omega
     cases s <;> simp only [applySetter]
-    all_goals first
-      | exact ⟨hd, hs⟩
-      | (split <;> first | exact ⟨hd, hs⟩ | exact ⟨rfl, hs⟩)
-      | (split <;> first | exact ⟨hd, hs⟩ | (split <;> exact ⟨rfl, hs⟩))
+    all_goals try first
+      | exact ⟨hd, s1, s2, s3⟩
       | (refine ⟨(setPacketID_keeps h _).2.2 hd, ?_⟩
          simp only [Msg.setHdr, Msg.hdr, Shape, Hdr.type, Hdr.flags, (setPacketID_keeps h _).1]
-         exact hs)
+         exact ⟨s1, s2, s3⟩)
+    · -- AddTopic
+      split
+      · exact ⟨hd, s1, s2, s3⟩
+      · split
+        · exact ⟨rfl, s1, s2, by simp only [List.length_set]; exact s3⟩
+        · exact ⟨rfl, s1, s2, by simp only [List.length_append, List.length_cons, List.length_nil]; omega⟩
+    · -- RemoveTopic
+      split
+      · exact ⟨rfl, s1, s2, hrm _⟩
+      · exact ⟨rfl, s1, s2, s3⟩
   | publish h t p =>
     simp only [Msg.hdr] at hd
     have hs' : h.tf.toNat / 16 = 3 := hs
@@ -507,5 +520,445 @@ theorem encode_len_all (m : Msg) (ctr : UInt64) (e : Encoded) (he : encode m ctr
     rw [h2] at he
     injection he with he
     rw [← he, h1]
+
+
+
+theorem hdr_encode_succeeds (h : Hdr) (ml avail : Nat) (hml : ml ≤ 268435455) (hv : validType h.type = true)
+    (ha : hdrLen ml ≤ avail) : h.encode ml avail = .ok (h.tf :: Wire.varint ml) := by
+  unfold Hdr.encode
+  rw [if_neg (by omega), if_neg (by simp only [maxRemainingLength]; omega), if_neg (by simp [hv])]
+  simp only []
+  rw [putUvarint_eq_varint ml (by omega)]
+  have := hdrLen_varint ml hml
+  rw [if_neg (by omega)]
+
+theorem writeLP_succeeds (avail : Nat) (b : Bytes) (hb : b.length ≤ 65535) (ha : 2 + b.length ≤ avail) :
+    writeLPBytes avail b = .ok (Wire.str b) := by
+  unfold writeLPBytes
+  rw [if_neg (by simp only [maxLPString]; omega), if_neg (by omega)]
+  rfl
+
+/-- the message after `Encode` has assigned an identifier where one is required and missing -/
+def assign (m : Msg) (ctr : UInt64) : Msg :=
+  match m with
+  | .publish h t p => if pubQoS h ≠ 0 then .publish (withAutoId h ctr).1 t p else m
+  | .subscribe h ts qs => .subscribe (withAutoId h ctr).1 ts qs
+  | .unsubscribe h ts => .unsubscribe (withAutoId h ctr).1 ts
+  | _ => m
+
+theorem validType_of (t : Nat) (h : 1 ≤ t ∧ t ≤ 14) : validType t = true := by
+  unfold validType typeValidAbove typeValidBelow
+  simp only [Bool.and_eq_true, decide_eq_true_eq]; omega
+
+theorem succeeds_ack (h : Hdr) (ctr : UInt64) (hd : h.dirty = true) (hs : Shape (.ack h)) :
+    ∃ e, encode (.ack h) ctr (Msg.ack h).len = .ok e ∧ e.msg = .ack h := by
+  obtain ⟨ht, _⟩ := hs
+  have hml : (Msg.ack h).msglen = 2 := rfl
+  have hlen : (Msg.ack h).len = hdrLen 2 + 2 := by
+    rw [len_dirty (Msg.ack h) hd (by rw [hml]; simp [maxRemainingLength]) (by intro h'; simp), hml]
+  unfold encode
+  simp only [hd, Bool.not_true, Bool.false_eq_true, if_false]
+  rw [hml, hlen, if_neg (by omega), if_neg (by simp [maxRemainingLength])]
+  rw [hdr_encode_succeeds h 2 _ (by omega) (validType_of _ (by omega)) (by omega)]
+  exact ⟨_, rfl, rfl⟩
+
+
+theorem succeeds_bare (h : Hdr) (ctr : UInt64) (hd : h.dirty = true) (hs : Shape (.bare h)) :
+    ∃ e, encode (.bare h) ctr (Msg.bare h).len = .ok e ∧ e.msg = .bare h := by
+  obtain ⟨ht, _, hr⟩ := hs
+  have hlen : (Msg.bare h).len = hdrLen 0 := by
+    simp only [Msg.len, hd, Bool.not_true, Bool.false_eq_true, if_false, hr]
+  unfold encode
+  simp only [hd, Bool.not_true, Bool.false_eq_true, if_false]
+  rw [hr, hlen, hdr_encode_succeeds h 0 _ (by omega) (validType_of _ (by omega)) (by omega)]
+  exact ⟨_, rfl, rfl⟩
+
+theorem succeeds_connack (h : Hdr) (sp : Bool) (rc : UInt8) (ctr : UInt64) (hd : h.dirty = true)
+    (hs : Shape (.connack h sp rc)) (hwf : Wire.WF (absMsg (.connack h sp rc))) :
+    ∃ e, encode (.connack h sp rc) ctr (Msg.connack h sp rc).len = .ok e ∧ e.msg = .connack h sp rc := by
+  obtain ⟨ht, _⟩ := hs
+  have hrc : rc.toNat ≤ 5 := by
+    unfold Wire.WF Wire.wf absMsg at hwf
+    exact of_decide_eq_true hwf
+  have hml : (Msg.connack h sp rc).msglen = 2 := rfl
+  have hlen : (Msg.connack h sp rc).len = hdrLen 2 + 2 := by
+    rw [len_dirty (Msg.connack h sp rc) hd (by rw [hml]; simp [maxRemainingLength]) (by intro h'; simp), hml]
+  unfold encode
+  simp only [hd, Bool.not_true, Bool.false_eq_true, if_false]
+  rw [hml, hlen, if_neg (by omega), if_neg (by simp [maxRemainingLength])]
+  rw [hdr_encode_succeeds h 2 _ (by omega) (validType_of _ (by omega)) (by omega)]
+  simp only [bind_ok]
+  rw [if_neg (by simp only [connackMaxCode]; omega)]
+  exact ⟨_, rfl, rfl⟩
+
+theorem succeeds_suback (h : Hdr) (codes : Bytes) (ctr : UInt64) (hd : h.dirty = true)
+    (hs : Shape (.suback h codes)) (hwf : Wire.WF (absMsg (.suback h codes))) :
+    ∃ e, encode (.suback h codes) ctr (Msg.suback h codes).len = .ok e ∧ e.msg = .suback h codes := by
+  obtain ⟨ht, _⟩ := hs
+  unfold Wire.WF Wire.wf absMsg at hwf
+  simp only [Bool.and_eq_true, decide_eq_true_eq, Wire.maxRemaining] at hwf
+  obtain ⟨⟨_, hcodes⟩, hl⟩ := hwf
+  have hl := of_decide_eq_true hl
+  have hall : (codes.all fun c => c = 0 || c = 1 || c = 2 || c = 0x80) = true := by
+    rw [List.all_eq_true] at hcodes ⊢
+    intro c hc
+    have := hcodes c hc
+    simpa [Wire.returnCodeOk] using this
+  have hml : (Msg.suback h codes).msglen = 2 + codes.length := rfl
+  have hlen : (Msg.suback h codes).len = hdrLen (2 + codes.length) + (2 + codes.length) := by
+    rw [len_dirty (Msg.suback h codes) hd (by rw [hml]; simp only [maxRemainingLength]; omega) (by intro h'; simp), hml]
+  unfold encode
+  simp only [hd, Bool.not_true, Bool.false_eq_true, if_false]
+  rw [if_neg (by simp [hall])]
+  rw [hml, hlen, if_neg (by omega), if_neg (by simp only [maxRemainingLength]; omega)]
+  rw [hdr_encode_succeeds h _ _ (by omega) (validType_of _ (by omega)) (by omega)]
+  exact ⟨_, rfl, rfl⟩
+
+
+theorem pubQoS_assign (h : Hdr) (ctr : UInt64) : pubQoS (withAutoId h ctr).1 = pubQoS h := by
+  unfold pubQoS Hdr.flags; rw [(withAutoId_pid h ctr).2]
+
+theorem assign_publish (h : Hdr) (t p : Bytes) (ctr : UInt64) :
+    assign (.publish h t p) ctr = if pubQoS h ≠ 0 then .publish (withAutoId h ctr).1 t p else .publish h t p := rfl
+
+theorem succeeds_publish (h : Hdr) (topic payload : Bytes) (ctr : UInt64) (hd : h.dirty = true)
+    (hs : Shape (.publish h topic payload)) (hwf : Wire.WF (absMsg (assign (.publish h topic payload) ctr))) :
+    ∃ e, encode (.publish h topic payload) ctr (Msg.publish h topic payload).len = .ok e ∧
+      e.msg = assign (.publish h topic payload) ctr := by
+  have ht : h.type = 3 := hs
+  have hq4 : pubQoS h < 4 := by unfold pubQoS; omega
+  -- what WF gives, in both cases of the QoS
+  have hfacts : topic.length ≤ 65535 ∧ topic.length ≠ 0 ∧
+      2 + topic.length + payload.length + (if pubQoS h ≠ 0 then 2 else 0) ≤ 268435455 := by
+    rw [assign_publish] at hwf
+    by_cases hq : pubQoS h ≠ 0
+    · rw [if_pos hq] at hwf
+      simp only [Wire.WF, Wire.wf, absMsg, pubQoS_assign, Bool.and_eq_true, decide_eq_true_eq, Wire.maxRemaining, Wire.strOk] at hwf
+      obtain ⟨⟨⟨⟨_, hts⟩, htn⟩, _⟩, hl⟩ := hwf
+      have hl := of_decide_eq_true hl
+      have hne : ¬ (UInt8.ofNat (pubQoS h) = 0) := by
+        intro e0
+        have := congrArg UInt8.toNat e0
+        simp at this; omega
+      rw [if_neg hne] at hl
+      refine ⟨hts, ?_, by rw [if_pos hq]; omega⟩
+      intro e0
+      have : topic = [] := List.eq_nil_of_length_eq_zero e0
+      rw [this] at htn; simp [Wire.topicNameOk] at htn
+    · rw [if_neg hq] at hwf
+      simp only [Decidable.not_not] at hq
+      simp only [Wire.WF, Wire.wf, absMsg, Bool.and_eq_true, decide_eq_true_eq, Wire.maxRemaining, Wire.strOk] at hwf
+      obtain ⟨⟨⟨⟨_, hts⟩, htn⟩, _⟩, hl⟩ := hwf
+      have hl := of_decide_eq_true hl
+      have he0 : (UInt8.ofNat (pubQoS h) = 0) := by rw [hq]; rfl
+      rw [if_pos he0] at hl
+      refine ⟨hts, ?_, by rw [if_neg (by omega)]; omega⟩
+      intro e0
+      have : topic = [] := List.eq_nil_of_length_eq_zero e0
+      rw [this] at htn; simp [Wire.topicNameOk] at htn
+  obtain ⟨hts, htne, hbound⟩ := hfacts
+  have hml : (Msg.publish h topic payload).msglen = 2 + topic.length + payload.length + (if pubQoS h ≠ 0 then 2 else 0) := rfl
+  generalize hML : 2 + topic.length + payload.length + (if pubQoS h ≠ 0 then 2 else 0) = ML at *
+  have hML2 : 2 + topic.length ≤ ML := by rw [← hML]; omega
+  have hlen : (Msg.publish h topic payload).len = hdrLen ML + ML := by
+    rw [len_dirty (Msg.publish h topic payload) hd (by rw [hml]; simp only [maxRemainingLength]; omega) (by intro h'; simp), hml]
+  unfold encode
+  simp only [hd, Bool.not_true, Bool.false_eq_true, if_false]
+  rw [if_neg htne, hml, hlen, if_neg (by simp only [maxRemainingLength]; omega), if_neg (by omega)]
+  rw [hdr_encode_succeeds h _ _ (by omega) (validType_of _ (by omega)) (by omega)]
+  simp only [bind_ok]
+  have hvl := hdrLen_varint ML (by omega)
+  rw [writeLP_succeeds _ topic hts (by simp only [List.length_cons]; omega)]
+  simp only [bind_ok]
+  rw [assign_publish]
+  unfold withAutoId
+  by_cases hq : pubQoS h ≠ 0
+  · rw [if_pos hq, if_pos hq]
+    exact ⟨_, rfl, rfl⟩
+  · rw [if_neg hq, if_neg hq]
+    exact ⟨_, rfl, rfl⟩
+
+
+theorem encFilters_zip_length : ∀ (ts : List Bytes) (qs : List UInt8), ts.length = qs.length →
+    (encFilters (ts.zip qs)).length = (ts.map (fun t => 2 + t.length + 1)).sum := by
+  intro ts
+  induction ts with
+  | nil => intro qs _; simp [encFilters]
+  | cons t ts ih =>
+    intro qs hl
+    cases qs with
+    | nil => simp at hl
+    | cons q qs =>
+      simp only [List.zip_cons_cons, encFilters_cons, List.map_cons, List.sum_cons, List.length_append,
+        List.length_cons]
+      rw [ih qs (by simpa using hl)]
+      simp [Wire.str]; omega
+
+theorem writeTopicsQos_succeeds : ∀ (ts : List Bytes) (qs : List UInt8) (avail : Nat), ts.length = qs.length →
+    (∀ f ∈ ts.zip qs, f.1.length ≤ 65535) → (ts.map (fun t => 2 + t.length + 1)).sum ≤ avail →
+    writeTopicsQos avail ts qs = .ok (encFilters (ts.zip qs)) := by
+  intro ts
+  induction ts with
+  | nil => intro qs avail _ _ _; simp [writeTopicsQos, encFilters]
+  | cons t ts ih =>
+    intro qs avail hl hs ha
+    cases qs with
+    | nil => simp at hl
+    | cons q qs =>
+      simp only [List.map_cons, List.sum_cons] at ha
+      unfold writeTopicsQos
+      rw [writeLP_succeeds avail t (hs (t, q) (by simp)) (by omega)]
+      simp only [bind_ok]
+      rw [ih qs _ (by simpa using hl) (fun f hf => hs f (by simp [hf])) (by simp [Wire.str]; omega)]
+      simp only [bind_ok, List.zip_cons_cons, encFilters_cons]
+      simp
+
+theorem assign_subscribe (h : Hdr) (ts : List Bytes) (qs : List UInt8) (ctr : UInt64) :
+    assign (.subscribe h ts qs) ctr = .subscribe (withAutoId h ctr).1 ts qs := rfl
+
+theorem succeeds_subscribe (h : Hdr) (ts : List Bytes) (qs : List UInt8) (ctr : UInt64) (hd : h.dirty = true)
+    (hs : Shape (.subscribe h ts qs)) (hwf : Wire.WF (absMsg (assign (.subscribe h ts qs) ctr))) :
+    ∃ e, encode (.subscribe h ts qs) ctr (Msg.subscribe h ts qs).len = .ok e ∧
+      e.msg = assign (.subscribe h ts qs) ctr := by
+  obtain ⟨ht, _, hlq⟩ := hs
+  rw [assign_subscribe] at hwf ⊢
+  simp only [Wire.WF, Wire.wf, absMsg, Bool.and_eq_true, decide_eq_true_eq, Wire.maxRemaining, Wire.strOk] at hwf
+  obtain ⟨⟨⟨_, _⟩, hall⟩, hl⟩ := hwf
+  have hl := of_decide_eq_true hl
+  have hstr : ∀ f ∈ ts.zip qs, f.1.length ≤ 65535 := by
+    intro f hf
+    rw [List.all_eq_true] at hall
+    have := hall f hf
+    simp only [Bool.and_eq_true, decide_eq_true_eq] at this
+    exact this.1
+  have hbody : (Wire.Packet.subscribe (u16of (withAutoId h ctr).1.pid) (ts.zip qs)).body.length =
+      2 + (ts.map (fun t => 2 + t.length + 1)).sum := by
+    have : (Wire.Packet.subscribe (u16of (withAutoId h ctr).1.pid) (ts.zip qs)).body =
+        Wire.u16 (u16of (withAutoId h ctr).1.pid) ++ encFilters (ts.zip qs) := rfl
+    rw [this, List.length_append, encFilters_zip_length ts qs hlq]; simp [Wire.u16]
+  rw [hbody] at hl
+  have hml : (Msg.subscribe h ts qs).msglen = 2 + (ts.map (fun t => 2 + t.length + 1)).sum := rfl
+  generalize hS : (ts.map (fun t => 2 + t.length + 1)).sum = S at *
+  have hlen : (Msg.subscribe h ts qs).len = hdrLen (2 + S) + (2 + S) := by
+    rw [len_dirty (Msg.subscribe h ts qs) hd (by rw [hml]; simp only [maxRemainingLength]; omega) (by intro h'; simp), hml]
+  unfold encode
+  simp only [hd, Bool.not_true, Bool.false_eq_true, if_false]
+  rw [hml, hlen, if_neg (by omega), if_neg (by simp only [maxRemainingLength]; omega)]
+  rw [hdr_encode_succeeds h _ _ (by omega) (validType_of _ (by omega)) (by omega)]
+  simp only [bind_ok]
+  have hvl := hdrLen_varint (2 + S) (by omega)
+  have hwa := withAutoId_pid h ctr
+  unfold withAutoId at hwa ⊢
+  have hpl : (if h.packetID = 0 then (h.setPacketID (nextPacketID ctr).fst, (nextPacketID ctr).snd) else (h, ctr)).1.pid.length = 2 := by
+    rw [hwa.1]; rfl
+  rw [writeTopicsQos_succeeds ts qs _ hlq hstr (by rw [hS, hpl]; simp only [List.length_cons]; omega)]
+  exact ⟨_, rfl, rfl⟩
+
+
+theorem encTopics_length : ∀ (ts : List Bytes), (encTopics ts).length = (ts.map (fun t => 2 + t.length)).sum := by
+  intro ts
+  induction ts with
+  | nil => simp [encTopics]
+  | cons t ts ih =>
+    simp only [encTopics_cons, List.map_cons, List.sum_cons, List.length_append]
+    rw [ih]; simp [Wire.str]; omega
+
+theorem writeTopics_succeeds : ∀ (ts : List Bytes) (avail : Nat),
+    (∀ f ∈ ts, f.length ≤ 65535) → (ts.map (fun t => 2 + t.length)).sum ≤ avail →
+    writeTopics avail ts = .ok (encTopics ts) := by
+  intro ts
+  induction ts with
+  | nil => intro avail _ _; simp [writeTopics, encTopics]
+  | cons t ts ih =>
+    intro avail hs ha
+    simp only [List.map_cons, List.sum_cons] at ha
+    unfold writeTopics
+    rw [writeLP_succeeds avail t (hs t (by simp)) (by omega)]
+    simp only [bind_ok]
+    rw [ih _ (fun f hf => hs f (by simp [hf])) (by simp [Wire.str]; omega)]
+    simp only [bind_ok, encTopics_cons]
+
+theorem assign_unsubscribe (h : Hdr) (ts : List Bytes) (ctr : UInt64) :
+    assign (.unsubscribe h ts) ctr = .unsubscribe (withAutoId h ctr).1 ts := rfl
+
+theorem succeeds_unsubscribe (h : Hdr) (ts : List Bytes) (ctr : UInt64) (hd : h.dirty = true)
+    (hs : Shape (.unsubscribe h ts)) (hwf : Wire.WF (absMsg (assign (.unsubscribe h ts) ctr))) :
+    ∃ e, encode (.unsubscribe h ts) ctr (Msg.unsubscribe h ts).len = .ok e ∧
+      e.msg = assign (.unsubscribe h ts) ctr := by
+  obtain ⟨ht, _⟩ := hs
+  rw [assign_unsubscribe] at hwf ⊢
+  simp only [Wire.WF, Wire.wf, absMsg, Bool.and_eq_true, decide_eq_true_eq, Wire.maxRemaining] at hwf
+  obtain ⟨⟨⟨_, _⟩, hall⟩, hl⟩ := hwf
+  have hl := of_decide_eq_true hl
+  have hstr : ∀ f ∈ ts, f.length ≤ 65535 := by
+    intro f hf
+    rw [List.all_eq_true] at hall
+    have := hall f hf
+    simpa [Wire.strOk] using this
+  have hbody : (Wire.Packet.unsubscribe (u16of (withAutoId h ctr).1.pid) ts).body.length =
+      2 + (ts.map (fun t => 2 + t.length)).sum := by
+    have : (Wire.Packet.unsubscribe (u16of (withAutoId h ctr).1.pid) ts).body =
+        Wire.u16 (u16of (withAutoId h ctr).1.pid) ++ encTopics ts := rfl
+    rw [this, List.length_append, encTopics_length]; simp [Wire.u16]
+  rw [hbody] at hl
+  have hml : (Msg.unsubscribe h ts).msglen = 2 + (ts.map (fun t => 2 + t.length)).sum := rfl
+  generalize hS : (ts.map (fun t => 2 + t.length)).sum = S at *
+  have hlen : (Msg.unsubscribe h ts).len = hdrLen (2 + S) + (2 + S) := by
+    rw [len_dirty (Msg.unsubscribe h ts) hd (by rw [hml]; simp only [maxRemainingLength]; omega) (by intro h'; simp), hml]
+  unfold encode
+  simp only [hd, Bool.not_true, Bool.false_eq_true, if_false]
+  rw [hml, hlen, if_neg (by omega), if_neg (by simp only [maxRemainingLength]; omega)]
+  rw [hdr_encode_succeeds h _ _ (by omega) (validType_of _ (by omega)) (by omega)]
+  simp only [bind_ok]
+  have hvl := hdrLen_varint (2 + S) (by omega)
+  have hwa := withAutoId_pid h ctr
+  unfold withAutoId at hwa ⊢
+  have hpl : (if h.packetID = 0 then (h.setPacketID (nextPacketID ctr).fst, (nextPacketID ctr).snd) else (h, ctr)).1.pid.length = 2 := by
+    rw [hwa.1]; rfl
+  rw [writeTopics_succeeds ts _ hstr (by rw [hS, hpl]; simp only [List.length_cons]; omega)]
+  exact ⟨_, rfl, rfl⟩
+
+
+theorem encodeConnectMessage_succeeds (c : ConnectF) (name : Bytes) (avail : Nat)
+    (hv : versionName c.version.toNat = some name) (hn : name.length ≤ 65535) (hcid : c.clientID.length ≤ 65535)
+    (hw : c.willFlag = true → c.willTopic.length ≤ 65535 ∧ c.willMessage.length ≤ 65535)
+    (hu : c.usernameFlag = true → c.username.length ≤ 65535)
+    (hp : c.passwordFlag = true → c.password.length ≤ 65535)
+    (ha : connectMsglen c ≤ avail) :
+    ∃ body, encodeConnectMessage c avail = .ok body := by
+  unfold connectMsglen at ha
+  rw [hv] at ha
+  simp only [] at ha
+  unfold encodeConnectMessage
+  rw [hv]
+  simp only [Option.getD_some]
+  rw [writeLP_succeeds avail name hn (by omega)]
+  simp only [bind_ok]
+  have l1 : (Wire.str name ++ [c.version, c.connectFlags] ++ putU16 c.keepAlive).length = 2 + name.length + 4 := by
+    simp [Wire.str, putU16]; omega
+  rw [l1]
+  rw [writeLP_succeeds _ c.clientID hcid (by omega)]
+  simp only [bind_ok]
+  have l2 : (Wire.str name ++ [c.version, c.connectFlags] ++ putU16 c.keepAlive ++ Wire.str c.clientID).length =
+      2 + name.length + 4 + (2 + c.clientID.length) := by
+    simp [Wire.str, putU16]; omega
+  cases hwf : c.willFlag with
+  | false =>
+    simp only [hwf, Bool.false_eq_true, if_false, bind_ok] at ha ⊢
+    cases huf : c.usernameFlag with
+    | false =>
+      simp only [huf, Bool.false_eq_true, if_false, bind_ok] at ha ⊢
+      cases hpf : c.passwordFlag with
+      | false => simp only [Bool.false_eq_true, if_false]; exact ⟨_, rfl⟩
+      | true =>
+        simp only [hpf, if_true] at ha ⊢
+        rw [l2, writeLP_succeeds _ c.password (hp hpf) (by omega)]
+        exact ⟨_, rfl⟩
+    | true =>
+      simp only [huf, if_true] at ha ⊢
+      rw [l2, writeLP_succeeds _ c.username (hu huf) (by omega)]
+      simp only [bind_ok]
+      cases hpf : c.passwordFlag with
+      | false => simp only [Bool.false_eq_true, if_false]; exact ⟨_, rfl⟩
+      | true =>
+        simp only [hpf, if_true] at ha ⊢
+        rw [writeLP_succeeds _ c.password (hp hpf) (by simp only [List.length_append, l2]; simp [Wire.str]; omega)]
+        exact ⟨_, rfl⟩
+  | true =>
+    simp only [hwf, if_true] at ha ⊢
+    obtain ⟨hw1, hw2⟩ := hw hwf
+    rw [l2, writeLP_succeeds _ c.willTopic hw1 (by omega)]
+    simp only [bind_ok]
+    rw [writeLP_succeeds _ c.willMessage hw2 (by simp [Wire.str]; omega)]
+    simp only [bind_ok]
+    have l3 : (Wire.str name ++ [c.version, c.connectFlags] ++ putU16 c.keepAlive ++ Wire.str c.clientID ++
+        Wire.str c.willTopic ++ Wire.str c.willMessage).length =
+        2 + name.length + 4 + (2 + c.clientID.length) + (2 + c.willTopic.length) + (2 + c.willMessage.length) := by
+      simp [Wire.str, putU16]; omega
+    cases huf : c.usernameFlag with
+    | false =>
+      simp only [huf, Bool.false_eq_true, if_false, bind_ok] at ha ⊢
+      cases hpf : c.passwordFlag with
+      | false => simp only [Bool.false_eq_true, if_false]; exact ⟨_, rfl⟩
+      | true =>
+        simp only [hpf, if_true] at ha ⊢
+        rw [l3, writeLP_succeeds _ c.password (hp hpf) (by omega)]
+        exact ⟨_, rfl⟩
+    | true =>
+      simp only [huf, if_true] at ha ⊢
+      rw [l3, writeLP_succeeds _ c.username (hu huf) (by omega)]
+      simp only [bind_ok]
+      cases hpf : c.passwordFlag with
+      | false => simp only [Bool.false_eq_true, if_false]; exact ⟨_, rfl⟩
+      | true =>
+        simp only [hpf, if_true] at ha ⊢
+        rw [writeLP_succeeds _ c.password (hp hpf) (by simp only [List.length_append, l3]; simp [Wire.str]; omega)]
+        exact ⟨_, rfl⟩
+
+
+theorem succeeds_connect (h : Hdr) (c : ConnectF) (ctr : UInt64) (hd : h.dirty = true)
+    (hs : Shape (.connect h c)) (hwf : Wire.WF (absMsg (.connect h c))) :
+    ∃ e, encode (.connect h c) ctr (Msg.connect h c).len = .ok e ∧ e.msg = .connect h c := by
+  obtain ⟨ht, _, _, _⟩ := hs
+  rw [absMsg_connect] at hwf
+  unfold Wire.WF Wire.wf at hwf
+  simp only [Bool.and_eq_true, Bool.or_eq_true, decide_eq_true_eq, absConnect] at hwf
+  obtain ⟨⟨⟨⟨hlev, hcid⟩, hwill⟩, hun⟩, hpw⟩ := hwf
+  obtain ⟨hc1, _, _⟩ := validClientID_of_ok _ _ hcid
+  obtain ⟨name, hv, hnl⟩ : ∃ name, versionName c.version.toNat = some name ∧ name.length ≤ 6 := by
+    rcases hlev with e | e
+    · have e := of_decide_eq_true e; rw [e]; exact ⟨Wire.nameMQIsdp, by decide, by decide⟩
+    · have e := of_decide_eq_true e; rw [e]; exact ⟨Wire.nameMQTT, by decide, by decide⟩
+  have hw : c.willFlag = true → c.willTopic.length ≤ 65535 ∧ c.willMessage.length ≤ 65535 := by
+    intro hf
+    rw [if_pos hf] at hwill
+    simp only [Bool.and_eq_true, decide_eq_true_eq, Wire.strOk] at hwill
+    exact ⟨hwill.1.1, hwill.1.2⟩
+  have hu : c.usernameFlag = true → c.username.length ≤ 65535 := by
+    intro hf
+    rw [if_pos hf] at hun
+    simpa [Wire.strOk] using hun
+  have hp : c.passwordFlag = true → c.password.length ≤ 65535 := by
+    intro hf
+    rw [if_pos hf] at hpw
+    simp only [Bool.and_eq_true, decide_eq_true_eq, Wire.strOk] at hpw
+    exact hpw.1
+  have hmlb : connectMsglen c ≤ 268435455 := by
+    unfold connectMsglen
+    rw [hv]
+    simp only []
+    cases hwf : c.willFlag <;> cases huf : c.usernameFlag <;> cases hpf : c.passwordFlag <;>
+      simp only [Bool.false_eq_true, if_false, if_true] <;>
+      (first | (have := hw hwf) | skip) <;> (first | (have := hu huf) | skip) <;> (first | (have := hp hpf) | skip) <;> omega
+  have hml : (Msg.connect h c).msglen = connectMsglen c := rfl
+  have hlen : (Msg.connect h c).len = hdrLen (connectMsglen c) + connectMsglen c := by
+    rw [len_dirty (Msg.connect h c) hd (by rw [hml]; simp only [maxRemainingLength]; omega) (by intro h'; simp), hml]
+  unfold encode
+  simp only [hd, Bool.not_true, Bool.false_eq_true, if_false]
+  rw [if_neg (by simp only [tCONNECT]; omega), if_neg (by rw [hv]; simp)]
+  rw [hml, hlen, if_neg (by omega), if_neg (by simp only [maxRemainingLength]; omega)]
+  rw [hdr_encode_succeeds h _ _ hmlb (validType_of _ (by omega)) (by omega)]
+  simp only [bind_ok]
+  have hvl := hdrLen_varint (connectMsglen c) hmlb
+  obtain ⟨body, hbody⟩ := encodeConnectMessage_succeeds c name
+    (hdrLen (connectMsglen c) + connectMsglen c - (h.tf :: Wire.varint (connectMsglen c)).length)
+    hv (by omega) (by omega) hw hu hp (by simp only [List.length_cons]; omega)
+  rw [hbody]
+  exact ⟨_, rfl, rfl⟩
+
+/-- `Encode` does not refuse a message built through the API whose fields (with an identifier assigned
+where one is missing) form a well-formed MQTT 3.1.1 packet, and the message afterwards is `assign m ctr` -/
+theorem built_encode_succeeds {m : Msg} (hb : Built m) (ctr : UInt64) (hwf : Wire.WF (absMsg (assign m ctr))) :
+    ∃ e, encode m ctr m.len = .ok e ∧ e.msg = assign m ctr := by
+  obtain ⟨hd, hs⟩ := built_inv hb
+  cases m with
+  | connect h c => exact succeeds_connect h c ctr hd hs hwf
+  | connack h sp rc => exact succeeds_connack h sp rc ctr hd hs hwf
+  | publish h t p => exact succeeds_publish h t p ctr hd hs hwf
+  | ack h => exact succeeds_ack h ctr hd hs
+  | subscribe h ts qs => exact succeeds_subscribe h ts qs ctr hd hs hwf
+  | suback h cs => exact succeeds_suback h cs ctr hd hs hwf
+  | unsubscribe h ts => exact succeeds_unsubscribe h ts ctr hd hs hwf
+  | bare h => exact succeeds_bare h ctr hd hs
 
 end Mqtt.Proofs.Codec
